@@ -1111,6 +1111,10 @@ static void mi_segment_abandon(mi_segment_t* segment, mi_segments_tld_t* tld) {
   mi_assert_internal(segment->abandoned_visits == 0);
   mi_assert_expensive(mi_segment_is_valid(segment,tld));
 
+  // in `mi_segment_force_abandon` we set this to true to keep ownership of the segment while iterating over
+  // its pages; it abandons the segment itself at the end.
+  if (segment->dont_free) return;
+
   // remove the free pages from the free page queues
   mi_slice_t* slice = &segment->slices[0];
   const mi_slice_t* end = mi_segment_slices_end(segment);
@@ -1478,10 +1482,14 @@ static void mi_segment_force_abandon(mi_segment_t* segment, mi_segments_tld_t* t
   }
   segment->dont_free = false;
   mi_assert(segment->used == segment->abandoned);
-  mi_assert(segment->used == 0);
-  if (segment->used == 0) {  // paranoia
+  if (segment->used == 0) {
     // all free now
     mi_segment_free(segment, false, tld);
+  }
+  else if (segment->used == segment->abandoned) {
+    // the last page in use was freed by a delayed free while its (already abandoned) siblings remain:
+    // abandoning the segment was postponed until we are done with it.
+    mi_segment_abandon(segment, tld);
   }
   else {
     // perform delayed purges
